@@ -91,6 +91,7 @@ def check(cx):
         'R20.7 max_joins governs JOIN: compared as (running number of joined channels) < max_joins before every admission, 405 otherwise (shared rule with C07)',
         'R20.8 (imported) max_connections governs admission: one slot per attempt, compared as previous < max, given back on refusal, released once on drop (C19 R19.4)',
         'R20.9 predefined users and operators are looked up through tables mapping every configured name, verbatim, to its entry',
+        'R20.10 (imported) predefined channels are built from their configuration entry and give the configured ranks on join (C16 R16.3)',
         'R20.6 (thorough, TLS builds) both accept loops hand the stream to the same user_state_process; the only behavioural read of the transport is is_secure() -> 671 in WHOIS',
     ]
     ck.does_not_decide += ['cryptographic exactness of "accepting exactly the password"', 'transcript equality of plain vs TLS sessions',
@@ -269,6 +270,10 @@ def check(cx):
     # ---------------------------------------------------------------- R20.9 predefined users / operators are found under their names
     r9 = cx.rule('R20.9', 'configured users / operators lookup tables', floor=2, kind='provenance')
     rule_config_index_tables(cx, r9)
+
+    # ---------------------------------------------------------------- R20.10 predefined channels (imported)
+    r10 = cx.rule('R20.10', 'predefined channels are built from their configuration entry (imported)', floor=1, kind='dependency')
+    depends(cx, r10, 'C16', ('R16.3', 'R16.3b'), 'predefined channels: topic and modes from the entry, rank lists moved to the defaults and granted on join')
 
     # ---------------------------------------------------------------- R20.7 max_joins
     from .C07 import rule_quota
